@@ -119,7 +119,8 @@ def _run_one(key):
            "inconclusive": [], "samples": [], "nontrivial": 0, "twin": None, "error": None}
     try:
         ob.prepare()
-        eng = Engine(max_paths=ob.max_paths, deadline=t0 + ob.budget_s, label=key)
+        budget = ob.budget_s * (2.5 if tier == "thorough" else 1)   # thorough instances carry more free names
+        eng = Engine(max_paths=ob.max_paths, deadline=t0 + budget, label=key)
         results = eng.explore(ob.body)
         st = eng.stats
         out.update(paths=st["paths"], decisions=st["decisions"], queries=st["queries"], solver_s=round(st["solver_s"], 3),
